@@ -376,6 +376,157 @@ def archFollowed (nets : List NetAttr) : Bool :=
 def coherent (a : Agent) : Bool :=
   a.opts.all (optCoherent a.nets a.lrs) && a.nets.all (sharedArchOK a.nets)
 
+/-! ### `OptimizerWrapper` (agilerl/algorithms/core/wrappers.py)
+
+The constructor the wiring above treats as `rebuildOpt`: which torch optimizers and param groups it builds from its
+`networks` argument, how it finds `network_names` / `lr_name` when they are not passed (a scan of the parent
+container's attributes, in attribute order, by object identity), and `state_dict` / `load_state_dict`.
+`Proofs/OptWrapGenEq.lean` proves the definitions generated from the source equal to these. -/
+
+/-- a network handed to the wrapper: identity, `list(parameters())` -/
+structure WNet where
+  id    : Nat
+  cells : List Nat
+deriving DecidableEq, Repr
+
+/-- the `networks` argument: one module, or a list object (its identity, its elements) -/
+inductive WArg
+  | one (n : WNet)
+  | many (listId : Nat) (ns : List WNet)
+deriving DecidableEq, Repr
+
+/-- `self.networks` -/
+def WArg.nets : WArg → List WNet
+  | .one n => [n]
+  | .many _ ns => ns
+
+/-- identity of `self.networks` (`[networks]` is a new list, held by nobody else: 0) -/
+def WArg.listId : WArg → Nat
+  | .one _ => 0
+  | .many i _ => i
+
+/-- a float object: identity and value -/
+structure WLr where
+  id  : Nat
+  val : Rat
+deriving DecidableEq, Repr
+
+/-- a torch param group: the parameter objects it steps, in order, and its `lr` -/
+structure WGroup where
+  cells : List Nat
+  lr    : WLr
+deriving DecidableEq, Repr
+
+/-- `self.optimizer`: one torch optimizer, or a list of them (multi-agent) -/
+inductive WOptim
+  | single (cls : Nat) (groups : List WGroup)
+  | multi (opts : List (Nat × List WGroup))
+deriving DecidableEq, Repr
+
+structure Wrapper where
+  multi  : Bool
+  names  : List String
+  lrName : String
+  lr     : WLr
+  optim  : WOptim
+deriving DecidableEq, Repr
+
+/-- the three branches of `__init__`: multi-agent = one optimizer (one group) per network; several networks AND
+    several attribute names = one optimizer with one group per network; otherwise one optimizer over `networks[0]` -/
+def wrapOptim (multi : Bool) (cls : Nat) (nets : List WNet) (nNames : Nat) (lr : WLr) : Option WOptim :=
+  if multi then
+    if nets.isEmpty then none else some (.multi (nets.map fun n => (cls, [{ cells := n.cells, lr := lr }])))
+  else if 1 < nets.length ∧ 1 < nNames then
+    if nets.length = nNames then some (.single cls (nets.map fun n => { cells := n.cells, lr := lr })) else none
+  else
+    match nets with
+    | n :: _ => some (.single cls [{ cells := n.cells, lr := lr }])
+    | [] => none
+
+/-- `_infer_network_attr_names`: the attributes (name, identity of the value) of the parent container, in attribute
+    order, that hold one of the networks — multi-agent: that hold the very list object -/
+def inferNames (multi : Bool) (container : List (String × Nat)) (arg : WArg) : List String :=
+  (container.filter fun p => if multi then p.2 == arg.listId else arg.nets.any (fun n => p.2 == n.id)).map (·.1)
+
+def isInfixChars : List Char → List Char → Bool
+  | p, [] => p.isEmpty
+  | p, c :: cs => p.isPrefixOf (c :: cs) || isInfixChars p cs
+
+/-- `"lr" in name.lower() or "learning_rate" in name.lower()` -/
+def lrish (name : String) : Bool :=
+  isInfixChars "lr".toList (String.ofList (name.toList.map Char.toLower)).toList ||
+    isInfixChars "learning_rate".toList (String.ofList (name.toList.map Char.toLower)).toList
+
+/-- the attributes holding the very object passed as `lr` -/
+def lrMatches (container : List (String × Nat)) (lr : WLr) : List String :=
+  (container.filter fun p => lr.id != 0 && lr.id == p.2).map (·.1)
+
+/-- `_infer_lr_name`: the only match; of several the first whose name looks like a learning rate -/
+def inferLr (container : List (String × Nat)) (lr : WLr) : Option String :=
+  match lrMatches container lr with
+  | [] => none
+  | [m] => some m
+  | ms => ms.find? lrish
+
+/-- `OptimizerWrapper.__init__` (`none`: it raises) -/
+def wrapInit (multi : Bool) (cls : Nat) (arg : WArg) (lr : WLr) (names : Option (List String)) (lrName : Option String)
+    (container : List (String × Nat)) : Option Wrapper :=
+  let nl : Option (List String × String) :=
+    match names with
+    | some ns => lrName.map fun l => (ns, l)
+    | none => (inferLr container lr).map fun l => (inferNames multi container arg, l)
+  match nl with
+  | none => none
+  | some (ns, l) =>
+    if ns.isEmpty then none else
+    (wrapOptim multi cls arg.nets ns.length lr).map fun o =>
+      { multi := multi, names := ns, lrName := l, lr := lr, optim := o }
+
+/-- the param groups of a wrapper, optimizer by optimizer, as the wiring model's groups -/
+def WOptim.groups : WOptim → List Group
+  | .single _ gs => gs.map fun g => { cells := g.cells, lr := g.lr.val }
+  | .multi os => os.flatMap fun o => o.2.map fun g => { cells := g.cells, lr := g.lr.val }
+
+/-- what `Optimizer.state_dict()` keeps of a group: the number of parameters and the options -/
+structure WSaved where
+  n  : Nat
+  lr : WLr
+deriving DecidableEq, Repr
+
+inductive WState
+  | single (gs : List WSaved)
+  | multi (os : List (List WSaved))
+deriving DecidableEq, Repr
+
+def savedOf (gs : List WGroup) : List WSaved := gs.map fun g => { n := g.cells.length, lr := g.lr }
+
+/-- `OptimizerWrapper.state_dict` -/
+def wrapStateDict (w : Wrapper) : WState :=
+  match w.optim with
+  | .single _ gs => .single (savedOf gs)
+  | .multi os => .multi (os.map fun o => savedOf o.2)
+
+/-- torch `load_state_dict`: same group shape required; the saved options, the OWN parameter objects -/
+def loadGroups (gs : List WGroup) (sv : List WSaved) : Option (List WGroup) :=
+  if gs.map (·.cells.length) = sv.map (·.n) then
+    some (List.zipWith (fun g s => { cells := g.cells, lr := s.lr }) gs sv)
+  else none
+
+def loadMulti : List (Nat × List WGroup) → List (List WSaved) → Option (List (Nat × List WGroup))
+  | [], [] => some []
+  | o :: os, s :: ss =>
+    match loadGroups o.2 s, loadMulti os ss with
+    | some g, some r => some ((o.1, g) :: r)
+    | _, _ => none
+  | _, _ => none
+
+/-- `OptimizerWrapper.load_state_dict` (`none`: it raises) -/
+def wrapLoad (w : Wrapper) (s : WState) : Option Wrapper :=
+  match w.multi, w.optim, s with
+  | false, .single c gs, .single sv => (loadGroups gs sv).map fun g => { w with optim := .single c g }
+  | true, .multi os, .multi ss => (loadMulti os ss).map fun r => { w with optim := .multi r }
+  | _, _, _ => none
+
 /-! ### line protocol -/
 
 structure IOState where
